@@ -58,6 +58,8 @@ class Gen:
 
     def handler(self, simple=False):
         r = self.r
+        if self.profile == 'chains':
+            return self.chain_handler()
         params = []
         # receiver
         targeted = r.random() < 0.5
@@ -107,6 +109,32 @@ class Gen:
         self.count('handler_recv_%s' % ('t' if targeted else 'g'))
         return 'addh %s %s %d %d %d %d %s %d %s' % (prio, tid, take, evd, wd, len(params), ' '.join(params), len(acts), ' '.join(acts))
 
+    def chain_handler(self):
+        """Handlers concentrated on G0/G1/T0 that send several events and often consume theirs."""
+        r = self.r
+        params = []
+        mut = r.random() < 0.6
+        x = r.random()
+        if x < 0.6:
+            params.append('G%d%s' % (r.choice([0, 0, 1]), 'm' if mut else 'r'))
+        elif x < 0.85:
+            params.append('T0%s %s' % ('m' if mut else 'r', r.choice(['t0', 'e', 'r0', 'o r0', '! r0'])))
+        else:
+            tag = r.choice([10, 20, 21, 40])
+            params.append('T%d%s %s' % (tag, 'm' if mut else 'r', r.choice(['t0', 'e', 'o r0'])))
+        if r.random() < 0.3:
+            params.append('F %s' % r.choice(self.qs))
+        sset = r.choice([3, 3, 6, 6, 6, 1, 4])
+        evs = SENDER_SETS[sset]
+        params.append('N%d %d %s' % (sset, len(evs), ' '.join(evs)))
+        pool = [e for e in evs if e in ('g0', 'g1', 't0', 't1', 'g10', 't10', 't20', 't21', 't40')] or evs
+        acts = [self.action_for(r.choice(pool)) for _ in range(r.choice([0, 1, 2, 2, 3, 3]))]
+        take = 1 if (mut and r.random() < 0.45) else 0
+        evd = r.choice([0, 1, 3]) if mut else 0
+        prio = r.choice(['H', 'M', 'M', 'M', 'L'])
+        self.count('handler_chain')
+        return 'addh %s - %d %d %d %d %s %d %s' % (prio, take, evd, r.choice([0, 0, 2]), len(params), ' '.join(params), len(acts), ' '.join(acts))
+
     def history(self, n_ops):
         r = self.r
         ops = []
@@ -118,7 +146,11 @@ class Gen:
             w.update(addh=18, send=14, sendto=14, insert=14)
         elif self.profile == 'panics':
             w.update(panicat=6, addh=16, send=12, sendto=12)
+        elif self.profile == 'chains':
+            w.update(addh=20, send=22, sendto=12, insert=12, spawn=10, rmh=5, remove=4, despawn=4, rmc=1, addc=0, addge=0, addte=0, rmge=0, rmte=0, panicat=1, fuel=1)
         names = list(w); weights = [w[k] for k in names]
+        if self.profile == 'chains':
+            ops += ['spawn', 'spawn'] + [self.handler() for _ in range(r.randrange(3, 8))]
         for _ in range(n_ops):
             op = r.choices(names, weights)[0]
             self.count('op_' + op)
@@ -126,8 +158,8 @@ class Gen:
             elif op == 'insert': ops.append('insert %d %d' % (r.randrange(0, 16), r.choice(KW)))
             elif op == 'remove': ops.append('remove %d %d' % (r.randrange(0, 16), r.choice(KW)))
             elif op == 'despawn': ops.append('despawn %d' % r.randrange(0, 16))
-            elif op == 'send': ops.append('send %d' % r.choice([0, 0, 1, 1, 2, 3]))
-            elif op == 'sendto': ops.append('sendto %d %d' % (r.randrange(0, 16), r.choice([0, 0, 1, 1, 2, 3])))
+            elif op == 'send': ops.append('send %d' % (r.choice([0, 0, 1]) if self.profile == 'chains' else r.choice([0, 0, 1, 1, 2, 3])))
+            elif op == 'sendto': ops.append('sendto %d %d' % (r.randrange(0, 16), 0 if self.profile == 'chains' else r.choice([0, 0, 1, 1, 2, 3])))
             elif op == 'addh': ops.append(self.handler())
             elif op == 'rmh': ops.append('rmh %d' % r.randrange(0, 8))
             elif op == 'addc': ops.append('addc %d' % r.choice(KW))
@@ -141,7 +173,7 @@ class Gen:
         ops.append('drop')
         return ops
 
-def write_histories(path, seed, n_hist, n_ops, profiles=('mixed', 'structural', 'events', 'panics')):
+def write_histories(path, seed, n_hist, n_ops, profiles=('mixed', 'structural', 'events', 'panics', 'chains')):
     g = None
     hists = []
     stats = {}
